@@ -121,7 +121,8 @@ def make_roundtrip(shape: Dict[str, Any]) -> Any:
             if not ctx.check(len(snaps) == 1, 'a small message was split'):
                 return
             pkt = SymPacket(snaps[0].data)
-            msg = DNSIncoming(pkt, ('10.0.0.9', 5353), None, 1000)  # type: ignore[arg-type]
+            # decoded as on an IPv6 socket with a scope id, at receive time 4242 (the clock says 1000)
+            msg = DNSIncoming(pkt, ('fe80::9', 5353), 3, 4242)  # type: ignore[arg-type]
             ctx.check(msg.valid, 'the library decoder rejects its own encoding')
             ctx.check(msg.id == (0 if multicast else mid), 'message id not recovered (0 for multicast)')
             ctx.check(msg.flags == flags, 'flags not recovered')
@@ -133,6 +134,10 @@ def make_roundtrip(shape: Dict[str, Any]) -> Any:
             ctx.check(len(got_recs) == len(given), f'{len(got_recs)} records decoded, {len(given)} given')
             for k, (g, w) in enumerate(zip(got_recs, given)):
                 same_record(ctx, g, w, multicast, f'record {k}')
+                ctx.check(g.created == 4242, f'record {k}: not stamped with the receive time of its datagram')
+                if isinstance(w, DNSAddress):
+                    # only an IPv6 address record carries the scope of the receiving interface; an IPv4 one stays the same record
+                    ctx.check(g.scope_id == (3 if w.type == const._TYPE_AAAA else None), f'record {k}: scope id of a decoded address record')
             # independent reader over the same element list
             rd = Reader(snaps[0], ctx)
             hid, hflags, nq, nan, nns, nar = rd.header()
@@ -345,8 +350,81 @@ def make_nsec(shape: Dict[str, Any]) -> Any:
     return fn
 
 
+def _packer_lemmas() -> List[Obligation]:
+    """E2: the real integer packers of DNSOutgoing (pre-packed lookup tables + struct), translated from their source on every run.
+    The E1 obligations replace them by value-carrying tokens, so their tables and cut-over points are decided here."""
+    import struct
+
+    import z3
+
+    from vkit import pyz3
+    from zeroconf._protocol import outgoing as og
+
+    def lemma(build: Any) -> Any:
+        def run() -> Dict[str, Any]:
+            try:
+                goal, base = build()
+            except pyz3.Unsupported as e:
+                return {'verdict': 'inconclusive', 'queries': 0, 'solver_s': 0, 'detail': f'outside the translated subset: {e}'}
+            r, model, dt = pyz3.solve(base + [z3.Not(goal)], 60000)
+            if r == 'unsat':
+                return {'verdict': 'discharged', 'queries': 1, 'solver_s': round(dt, 3)}
+            if r == 'sat':
+                return {'verdict': 'counterexample', 'witness': {str(d): model[d].as_long() for d in model.decls() if str(d) == 'value'}, 'queries': 1, 'solver_s': round(dt, 3)}
+            return {'verdict': 'inconclusive', 'queries': 1, 'solver_s': round(dt, 3)}
+
+        return run
+
+    value = z3.Int('value')
+
+    def b_short() -> Any:
+        paths = pyz3.Evaluator(og.DNSOutgoing._get_short, {}).run({'value': value})
+        goal = z3.And(*[z3.Implies(cond, out[1] == value) for cond, out in paths if out[0] == 'return'] + [z3.Not(cond) for cond, out in paths if out[0] != 'return'])
+        return goal, [value >= 0, value <= 65535]
+
+    def b_byte() -> Any:
+        import ast
+        import inspect
+        import textwrap
+
+        ev = pyz3.Evaluator(og.DNSOutgoing._write_byte, {})
+        sub = [n for n in ast.walk(ev.tree) if isinstance(n, ast.Subscript)]
+        if len(sub) != 1:
+            raise pyz3.Unsupported('_write_byte no longer appends one table entry')
+        return ev.ev(sub[0], {'value': value}) == value, [value >= 0, value <= 255]
+
+    def replay(w: Dict[str, Any]) -> List[str]:
+        v = w.get('value', 0)
+        out = []
+        o = og.DNSOutgoing(0)
+        try:
+            if 0 <= v <= 65535 and o._get_short(v) != struct.pack('>H', v):
+                out.append(f'_get_short({v}) is not the big-endian 16-bit encoding')
+        except Exception as e:  # noqa: BLE001
+            out.append(f'_get_short({v}) raised {type(e).__name__}')
+        try:
+            if 0 <= v <= 255:
+                o._write_byte(v)
+                if o.data[-1] != bytes([v]):
+                    out.append(f'_write_byte({v}) appended {o.data[-1]!r}')
+        except Exception as e:  # noqa: BLE001
+            out.append(f'_write_byte({v}) raised {type(e).__name__}')
+        for k, packed in og.LONG_LOOKUP.items():
+            if packed != struct.pack('>L', k):
+                out.append(f'LONG_LOOKUP[{k}] is not the big-endian 32-bit encoding')
+        return out
+
+    def b_long() -> Any:
+        bad = [k for k, packed in og.LONG_LOOKUP.items() if packed != struct.pack('>L', k)]
+        return z3.BoolVal(not bad), []
+
+    return [Obligation('packer[_get_short is the 16-bit big-endian encoding for every value 0..65535]', lemma(b_short), 'packer', {}, kind='smt', timeout=70, replay=replay),
+            Obligation('packer[_write_byte appends the octet for every value 0..255]', lemma(b_byte), 'packer', {}, kind='smt', timeout=70, replay=replay),
+            Obligation('packer[LONG_LOOKUP entries are their 32-bit encodings]', lemma(b_long), 'packer', {}, kind='smt', timeout=70, replay=replay)]
+
+
 def obligations(tier: str) -> List[Obligation]:
-    obs = []
+    obs = _packer_lemmas()
     combos = [('max-length', False, True, 'fwd'), ('plain', False, True, 'fwd'), ('mixed-case', False, True, 'rev'), ('non-ascii', True, True, 'fwd'), ('dotted-instance', False, False, 'fwd'), ('long-labels', True, False, 'rev')]
     if tier == 'thorough':
         combos = [(n, q, m, o) for n in NAMESETS for q in (False, True) for m in (True, False) for o in ('fwd', 'rev')]
